@@ -5,13 +5,12 @@ CONSTANTS
   MaxMods = 3
   FixShort = TRUE
   FixMid = TRUE
-  Tasks = {"uniq", "fptr", "db"}
+  Tasks = {"uniq", "fptr"}
   DbInputs <- MCDbInputs
 INVARIANT NoAbort
 INVARIANT StepBound
 INVARIANT UniqExact
 INVARIANT FptrExact
-INVARIANT DbTotalAndExact
 PROPERTY Terminates
 CONSTRAINT DumpConstraint
 CHECK_DEADLOCK FALSE
